@@ -146,6 +146,8 @@ pub struct Builder<'c> {
   writers: Vec<TaskId>,
   /// Tasks that task t requires unconditionally (transitively closed), known for t > current.
   uncond: Vec<BTreeSet<TaskId>>,
+  /// Swarm profile of this case: which statement kinds are boosted (0 = the default mix).
+  profile: u8,
 }
 
 #[derive(Clone, Copy)]
@@ -269,6 +271,13 @@ impl<'c> Builder<'c> {
       if depth < 2 && self.n_src > 0 && (me as usize) + 2 < self.n_tasks { kinds.extend([8, 8]); }
       if self.cfg.multi_access && !px.accessed.is_empty() { kinds.push(7); }
       if self.cfg.panicky && !px.assigned.is_empty() { kinds.push(9); }
+      // Swarm testing: each case boosts one family of statement kinds, so that shapes which need many statements of one
+      // kind (long chains, many switches, many writers) are not left to chance.
+      let boost: &[u8] = match self.profile { 1 => &[8, 8], 2 => &[1, 3], 3 => &[2, 3], 4 => &[5, 6], 5 => &[7, 7], 6 => &[4, 8], _ => &[] };
+      if !boost.is_empty() {
+        let extra: Vec<u8> = kinds.iter().cloned().filter(|k| boost.contains(k)).collect();
+        for _ in 0..3 { kinds.extend(extra.iter().cloned()); }
+      }
       if kinds.is_empty() { break; }
       match kinds[rd.pick(kinds.len())] {
         0 => {
@@ -427,6 +436,8 @@ pub fn build_program(g: &Genome, cfg: &GenCfg) -> Program { build_program_with(g
 pub fn build_program_with(g: &Genome, cfg: &GenCfg, force: Option<(usize, u8)>) -> Program {
   let mut lay = Rd::new(&g.layout);
   let mut cfg_local = cfg.clone();
+  // Half of the cases use the default statement mix, the others one of six swarm profiles.
+  let profile = if lay.chance(1, 2) { 1 + lay.pick(6) as u8 } else { 0 };
   if cfg.exact_share > 0 && lay.chance(cfg.exact_share, 10) {
     cfg_local.rchks = vec![RChk::Exact];
     cfg_local.ochks = vec![OChk::Equals, OChk::IEquals];
@@ -455,7 +466,7 @@ pub fn build_program_with(g: &Genome, cfg: &GenCfg, force: Option<(usize, u8)>) 
   for r in n_src..n_res {
     if lay.chance(1, 6) { init.insert(r, lay.pick(4) as Val); }
   }
-  let mut b = Builder { cfg, n_tasks, n_src, n_res, writers: writers.clone(), uncond: vec![BTreeSet::new(); n_tasks] };
+  let mut b = Builder { cfg, n_tasks, n_src, n_res, writers: writers.clone(), uncond: vec![BTreeSet::new(); n_tasks], profile };
   let mut tasks: Vec<Script> = vec![Script::default(); n_tasks];
   for me in (0..n_tasks).rev() {
     let empty: Vec<u16> = vec![];
